@@ -6,12 +6,12 @@ package main
 
 import (
 	"bytes"
-	"crypto/sha256"
-	"net/url"
 	"context"
+	"crypto/sha256"
 	"encoding/json"
 	"fmt"
 	"io"
+	"net/url"
 	"os"
 	"os/exec"
 	"path/filepath"
